@@ -74,6 +74,10 @@ def attribute(seg):
                 return ["C06"], "pick-not-max"
             if pc == "PTop":
                 return ["C04", "C08", "C09"], "pick-while-gate-closed"
+        if str(pc).startswith("PGate"):
+            # the choice was made half-way through the gate: completions the second wait would have retired are not in
+            # the ready set the choice was made from (C06: "no other node that is ready at that moment")
+            return ["C04", "C05", "C06", "C08", "C09"], "pick-at-" + str(pc)
         return ["C04", "C05", "C08", "C09"], "pick-at-" + str(pc)
     if t == "W":
         if pc in ("PTop", "PPick"):
@@ -494,9 +498,9 @@ from . import scenarios  # noqa: E402
 
 REGISTRY["C09"]["engines"] = list(REGISTRY["C09"]["engines"]) + [engine_khist.run]
 REGISTRY["C09"]["rule"] += " || " + HIST_RULE
-for _p in ("C09", "C14", "C17", "C16", "C10", "C13"):
+for _p in ("C09", "C14", "C17", "C16", "C10", "C13", "C08", "C04", "C11", "C18"):
     REGISTRY[_p]["engines"] = list(REGISTRY[_p]["engines"]) + [scenarios.run]
-    REGISTRY[_p]["rule"] += " || hand-written scenarios without the controller (harness/scenarios.py): failing calls that leave nodes running followed by another failing call; a node calling another DAG at run time; the first awaits of an AsyncDAG started together; a failing async node with a running sibling; concurrent builds under a tiny switch interval; a debug node inside a deactivated nested DAG"
+    REGISTRY[_p]["rule"] += " || hand-written scenarios without the controller (harness/scenarios.py): failing calls that leave nodes running followed by another failing call; a node calling another DAG at run time; the first awaits of an AsyncDAG started together; a failing async node with a running sibling; concurrent builds / calls under a tiny switch interval; a debug node inside a deactivated nested DAG; a wide DAG whose limit exceeds any default pool size; setup nodes returning builtin containers (object identity across executions); concurrent executors of one DAG writing their own cache files"
 
 REGISTRY["C02"]["engines"] = [engine_ksched, engine_kvalue.run]
 REGISTRY["C02"]["rule"] = SCHED_RULE + " || " + VALUE_RULE
